@@ -12,3 +12,48 @@ EXTRA["C34"] = {
             "file-system and whole-Env code, outside the claim.",
     "design_ref": "DESIGN.md section 6, C34",
 }
+
+_WALK = ("every expression kind, every built-in function kind and built-in method kind (argument counts 0..N) and every "
+         "other call receiver is driven through the real eval_expr dispatcher: the NotEvaluated arm queues "
+         "sub-expressions, each evaluates to a fresh symbolic Value (symbolic Value_ variant, 64-bit Int/Float payloads, "
+         "opaque aggregates), and the later arms run on the operand stack the dispatcher itself produced")
+
+EXTRA["C07"] = {
+    "text": "Bounded symbolic model checking of error-and-resume, one failing step at a time: " + _WALK + ". On every "
+            "feasible path where a step returns Err((RestoreValues, _)) the real restore_stack_frame is applied and the "
+            "step is executed a second time with the same free decisions. Decided per path: the operand stack after the "
+            "restore equals the stack before the step (same values, same order), the resumed step fails with the same "
+            "error (message operands and position) and leaves the same stack, i.e. the error is stable under any number "
+            "of :resume. SAT candidates are replayed in a scripted JSON session (input, :resume, :resume; responses must "
+            "be equal). Bound: argument counts 0..2 (quick) / 0..3, one match case, blocks of 0..1 expressions.",
+    "note": "Trusted: rsx, std models, z3 (path feasibility); 'a step is a function of entry, state, operands and "
+            "environment', opaque data functional in its inputs. Candidates on over-approximated (tainted) paths count "
+            "only when natively reproduced. 37 genuine call sites with a wrong RestoreValues order are recorded in "
+            "known_findings.jsonl and reported as KNOWN-FINDING.",
+    "design_ref": "DESIGN.md section 6, C07",
+}
+
+EXTRA["C02"] = {
+    "text": "Bounded symbolic model checking of panic-freedom of each evaluation step's own code: " + _WALK + ". Every "
+            "panic!/unreachable!/assert!/expect/unwrap, index, slice and (dev-profile) arithmetic site reached under a "
+            "satisfiable path condition is a candidate; the solver's model picks the operand kinds and the generated "
+            "call is run on the real binary (exit 101 confirms). Bound: argument counts 0..3 (quick) / 0..4, <= 6 "
+            "dispatcher steps per expression.",
+    "note": "Trusted: rsx, std models, z3. Whole-program runs, Rust-stack overflow on deeply nested values, panics inside "
+            "opaquely modelled std calls, indices computed from opaque (string/list) payloads and the parser/checker "
+            "(C01) are outside the claim. Arithmetic at integer limits is decided exactly by C04.",
+    "design_ref": "DESIGN.md section 6, C02",
+}
+
+EXTRA["C24"] = {
+    "text": "Bounded symbolic model checking of the sandbox gate: " + _WALK + ", with env.enforce_sandbox = true. Every "
+            "unmodelled std / third-party call an arm reaches is recorded; decided per path: no effect sink (std::fs, "
+            "File, process::Command, stdin, set_current_dir, Path exists/metadata/read_dir) is reachable. Candidates "
+            "are confirmed under `garden playground-run` in a scratch directory with evidence of an effect (directory "
+            "or file changed, file content or stdin line echoed, run blocked). A syntactic companion regenerated each "
+            "run checks that effect APIs occur in eval.rs only inside the two dispatchers and the import helpers.",
+    "note": "Trusted: rsx, std models, z3, the fixed sink pattern (listed in evidence with the census of all unmodelled "
+            "calls reached). Reads through `import`, dbg/print output, get_env and path canonicalisation of the "
+            "program's own source path are outside the claim.",
+    "design_ref": "DESIGN.md section 6, C24",
+}
